@@ -245,6 +245,22 @@ class Kinds:
                 return inner[2]
         return None
 
+    def out_degree_row(self, t, f):
+        """t counts the live arcs of one row: len(where(P(row))[0]) | len(row[P(row)]) | sum(P(row)) | P(row).sum()
+        -> the row term, else None"""
+        if is_call(t, 'builtins.len') and len(t[2]) == 1:
+            x = t[2][0]
+            if x[0] == 'sub' and x[2] == ('c', 0) and is_call(x[1], *WHERE_LIKE) and x[1][2]:
+                return self.row_of_pred(x[1][2][0], f)
+            if is_call(x, *FLAT_WHERE) and x[2]:
+                return self.row_of_pred(x[2][0], f)
+            if x[0] == 'sub' and x[2][0] == 'cmp':
+                row = self.row_of_pred(x[2], f)
+                return row if row is not None and row == x[1] else None
+        if is_call(t, 'numpy.sum', 'builtins.sum', 'numpy.count_nonzero') and len(t[2]) == 1:
+            return self.row_of_pred(t[2][0], f)
+        return None
+
     def live_table(self, pred, f):
         """truth table of a liveness predicate on the entry classes (-1, 0, positive)"""
         row = self.row_of_pred(pred, f)
